@@ -24,7 +24,7 @@ THEOREMS = [
     "PM.C09Flat.flat_follows_spec", "PM.C09Flat.flat_complete_iff_all_arrived",
     # ... and Parser.add / parse_stream over flat tasks refine the trie parser (Proofs/ParseFlatParser.lean)
     "PM.FParser.add_refines", "PM.FParser.feed_refines", "PM.pdom_of_spec", "PM.C09Flat.flat_parse_stream_follows_spec",
-    "PM.C09Flat.PInv.get", "PM.C09Flat.flat_perm_invariant", "PM.C09Flat.flat_error_agrees",
+    "PM.C09Flat.PInv.get", "PM.C09Flat.flat_perm_invariant", "PM.C09Flat.flat_error_agrees", "PM.C09Flat.handed_back_is_forgotten",
 ]
 # theorems about the decisions of parse.py *translated from the current source* (extractor E12, lean/Eliot/Generated/ParseRule.lean)
 RULE_THEOREMS = ["PM.C09Rule.completeNow_is_translated", "PM.C09Rule.visit_is_translated", "PM.C09Rule.shapes"]
